@@ -191,6 +191,24 @@ def gen_cases(thorough):
                 stmts = stmts + [caller]
                 ci = len(stmts) - 1
             yield (fname, nname, idx), stmts, fi, ci
+    for case in gen_unterminated():
+        yield case
+
+
+# A string literal that never closes swallows the rest of the file, so the statements after it must not hold a quote
+# themselves (one that does would close the literal and make a second, different fault further down).
+QUOTE_FREE = [0, 1, 2, 4]          # indices into BASE
+UNTERMINATED = [("syntax-unterminated-string", "\"abc"), ("syntax-unterminated-string-escaped-closing-quote", "\"abc\\\""),
+                ("syntax-unterminated-string-with-line-break", "\"abc\n    def")]
+
+
+def gen_unterminated():
+    for (fname, ftext), (nname, ntext, caller) in itertools.product(UNTERMINATED, NEST[:4]):
+        faulty = ntext.replace("@F@", ftext)
+        for idx in range(0, 4):
+            base = [BASE[QUOTE_FREE[k % len(QUOTE_FREE)]].format(i=k, j=k) for k in range(3)]
+            stmts = list(PRELUDE) + base[:idx] + [faulty] + base[idx:]
+            yield (fname, nname, idx), stmts, len(PRELUDE) + idx, None
 
 
 def variants(stmts, fi, ci):
